@@ -1124,7 +1124,12 @@ impl<'w, 'r, 'gc> Cb<'w, 'r, 'gc> {
             self.w.stats.flag("C07.queried-dead");
         }
         if reachable && dead {
-            self.viol("C07.reachable-dead", format!("is_dead({t}) = true at handout although {t} is strongly reachable"));
+            // reachable through a pointer adopted by a barrier path in this cycle? Then the barrier
+            // did not make the collector treat it as if the pointer had been there all along (C06)
+            let rt = &self.w.rt[self.a as usize];
+            let adopted = rt.adopted_cur.iter().any(|r| self.w.sh.closure(*r).contains(&t));
+            let al: &[&str] = if adopted { &["C06.adopted-dead"] } else { &[] };
+            self.w.violate_with("C07.reachable-dead", al, format!("is_dead({t}) = true at handout although {t} is strongly reachable"));
             return;
         }
         if self.clean0 {
